@@ -160,7 +160,9 @@ func c15ops(n int) []c15op {
 	for _, ss := range sets {
 		ss := ss
 		ops = append(ops, c15op{name: fmt.Sprintf("WithServicesEnabled%v", ss), kind: "enable", args: ss,
-			apply: func(p *types.Project) (*types.Project, error) { return p.WithServicesEnabled(append([]string{}, ss...)...) }})
+			apply: func(p *types.Project) (*types.Project, error) {
+				return p.WithServicesEnabled(append([]string{}, ss...)...)
+			}})
 		ops = append(ops, c15op{name: fmt.Sprintf("WithServicesDisabled%v", ss), kind: "disable", args: ss,
 			apply: func(p *types.Project) (*types.Project, error) {
 				return p.WithServicesDisabled(append([]string{}, ss...)...), nil
